@@ -56,7 +56,7 @@ CHECKS = {
     text="For every accepted text and every configuration: parse(print(ast, cfg)) == ast and printing the result again is the identity; a slice runs through the real scc fmt --inplace.",
     note="tree equality = the repository's derived PartialEq (spans ignored)"),
  "C17": dict(level=MC, design="§4 C17", technique="exhaustive enumeration of owned nondeterminism: all histories of earlier compilations up to a length bound (fresh process each), hash seeds through a getrandom shim, a product of environments; every stage output compared byte-wise (modulo label numbering for histories)",
-    text="Every history over an 8-program alphabet up to length 2/3 x every target, every seed 0..15/0..255 x corpus, and 7 environments x the real scc subcommands are executed; all printable stages must be identical. Distinct outcomes per program are reported (exactly 1 expected).",
+    text="Every history over a 12-program alphabet (incl. conflicting namesakes) up to length 2/3 x every target, every seed 0..15/0..255 x corpus, and 7 environments x the real scc subcommands are executed; all printable stages must be identical. Distinct outcomes per program are reported (exactly 1 expected).",
     note="the hash-seed seam relies on std drawing its keys through getrandom(); its effect was observed before the instance-order fix"),
  "C18": dict(level=EX, design="§4 C18", technique="bounded-exhaustive enumeration of inputs (all token sequences up to length 3/4, all short character strings, all single-token edits of a corpus, boundary literals, nesting depths, entry shapes) through the real front end and, when accepted, all later stages under catch_unwind; byte-level inputs through the real binary",
     text="No input may make parsing, checking or (for accepted programs with a valid entry point) any later stage panic, other than the capacity assertions. The RV64 print panic is a recorded known finding.",
